@@ -186,20 +186,20 @@ impl SubCheck for ServerSession {
         case_strategy(tier)
     }
     fn exec(&self, c: &SysCase) -> Outcome {
-        let (mut out, mut soft) = exec_server(c);
-        let mut n = 0;
-        while out.failed() && soft && n < 2 && !rt::failed_already() {
-            n += 1;
-            let (o2, s2) = exec_server(c);
-            if !o2.failed() {
-                let mut o2 = o2;
-                o2.label("deadline-miss-not-confirmed");
-                return o2;
-            }
-            out = o2;
-            soft = s2;
+        let (out, soft) = exec_server(c);
+        if !(out.failed() && soft) || rt::failed_already() {
+            return out;
         }
-        out
+        // two of three executions on fresh clusters must fail before a deadline-decided failure is reported
+        let (o2, _) = exec_server(c);
+        if o2.failed() {
+            return o2;
+        }
+        let (mut o3, _) = exec_server(c);
+        if !o3.failed() {
+            o3.label("deadline-miss-not-confirmed");
+        }
+        o3
     }
     fn workers(&self) -> usize {
         (rt::threads() / 2).clamp(1, 8)
@@ -342,20 +342,20 @@ impl SubCheck for ClientReplies {
         case_strategy(tier)
     }
     fn exec(&self, c: &SysCase) -> Outcome {
-        let (mut out, mut soft) = exec_client(c);
-        let mut n = 0;
-        while out.failed() && soft && n < 2 && !rt::failed_already() {
-            n += 1;
-            let (o2, s2) = exec_client(c);
-            if !o2.failed() {
-                let mut o2 = o2;
-                o2.label("deadline-miss-not-confirmed");
-                return o2;
-            }
-            out = o2;
-            soft = s2;
+        let (out, soft) = exec_client(c);
+        if !(out.failed() && soft) || rt::failed_already() {
+            return out;
         }
-        out
+        // two of three executions on fresh clusters must fail before a deadline-decided failure is reported
+        let (o2, _) = exec_client(c);
+        if o2.failed() {
+            return o2;
+        }
+        let (mut o3, _) = exec_client(c);
+        if !o3.failed() {
+            o3.label("deadline-miss-not-confirmed");
+        }
+        o3
     }
     fn workers(&self) -> usize {
         (rt::threads() / 2).clamp(1, 8)
